@@ -127,6 +127,9 @@ type (
 
 		// CloseNotifier is an experimental hook called once on close.
 		CloseNotifier experimental.CloseNotifier
+
+		// memoryReleased is set when this instance has given up its share of MemoryInstance (see MemoryInstance.users).
+		memoryReleased atomic.Bool
 	}
 
 	// DataInstance holds bytes corresponding to the data segment in a module.
